@@ -360,6 +360,7 @@ def shards(tier, seed):
             for start in (0, 1):
                 out.insert(0, ('threads', st, how, start, 1 if tier == 'quick' else 2))
     out.append(('blacklist', None, None, None, 'base'))
+    out.append(('blseq', None, None, None, 'base'))
     # multi-valued headers built up by appends with looks at the header list in between: all programs of <= 4 operations
     for via in ('base', 'wsgi'):
         for first in range(len(MULTI_OPS)):
@@ -375,7 +376,7 @@ def bounds(tier, seed):
             'names': NAMES, 'statuses': STATUSES, 'entry_points': DICT_OPS + ATTR_OPS + CTOR_OPS, 'max_operations': 2}
 
 
-FLOORS = {'multi_programs': 1000, 'cookie_responses': 1000, 'redirects': 1000, 'schedules': 1000, 'rejected': 1000, 'accepted': 1000, 'blacklisted_withheld': 100, 'non_ascii_roundtrip': 500, 'multi_valued': 100,
+FLOORS = {'blacklist_sequences': 100, 'multi_programs': 1000, 'cookie_responses': 1000, 'redirects': 1000, 'schedules': 1000, 'rejected': 1000, 'accepted': 1000, 'blacklisted_withheld': 100, 'non_ascii_roundtrip': 500, 'multi_valued': 100,
           'wsgi_programs': 200}
 
 
@@ -404,6 +405,47 @@ def work_multi(spec):
                                    sig='multi:' + v[0])
     res['execs'] = res['states']
     core.add_sample(res, {'multi_ops': [list(o) for o in MULTI_OPS], 'first': first, 'max_operations': n, 'via': via})
+    return res
+
+
+# ---- what one 204 / 304 response carried must not decide what the next one may carry (fresh import per pair) -------------------
+
+def blseq_case(st, first, second):
+    """fresh import; a status-st response with the header names `first` is emitted, then one with the names `second` -> problem | None"""
+    om = sut.load(fresh=True)
+    for i, names in enumerate((first, second)):
+        r = om.HTTPResponse('', st)
+        for nm in names:
+            r.headers[nm] = 'v'
+        r.headers['X-Keep'] = 'k'
+        hl = list(r.headerlist)
+        leaked = sorted(k for k, _ in hl if k.lower() in BLACKLIST[st])
+        if leaked:
+            return f'response #{i + 1} of the process with status {st} and the headers {list(names)} emits {leaked} (header list {hl!r})'
+        if ('X-Keep', 'k') not in hl:
+            return f'response #{i + 1} with status {st} lost its own header X-Keep (header list {hl!r})'
+    return None
+
+
+def work_blseq(spec):
+    res = core.new_result()
+    c = res['counters']
+    names304 = ['Allow', 'Content-Encoding', 'Content-Language', 'Content-Length', 'Content-Range', 'Content-Type', 'Content-MD5', 'Last-Modified']
+    for st, names in ((204, ['Content-Type']), (304, names304)):
+        sets = [()] + [(n,) for n in names] + ([tuple(names)] if len(names) > 1 else [])
+        for first in sets:
+            for second in sets:
+                res['states'] += 1
+                res['transitions'] += 2
+                c['blacklist_sequences'] += 1
+                res['nontrivial'] += 1
+                bad = blseq_case(st, first, second)
+                res['outcomes'].add('blacklist sequence ' + ('ok' if bad is None else 'LEAK'))
+                if bad:
+                    core.add_violation(res, {'kind': 'blseq', 'status': st, 'first': list(first), 'second': list(second)}, bad, sig='blacklist-after-earlier-response')
+    sut.load(fresh=True)
+    res['execs'] = res['states']
+    core.add_sample(res, {'blacklist_sequences': c['blacklist_sequences']})
     return res
 
 
@@ -501,6 +543,8 @@ def work(spec):
         return work_cookies(spec)
     if spec[0] == 'multi':
         return work_multi(spec)
+    if spec[0] == 'blseq':
+        return work_blseq(spec)
     kind, a, b, n, via = spec
     res = core.new_result()
     om = sut.load()
@@ -610,6 +654,10 @@ def work(spec):
 
 
 def replay(case):
+    if case.get('kind') == 'blseq':
+        bad = blseq_case(case['status'], tuple(case['first']), tuple(case['second']))
+        sut.load(fresh=True)
+        return bad
     if 'cookie' in case:
         value, attrs, second = case['cookie']
         bad, emitted = cookie_case(sut.load(), value, attrs, second)
